@@ -186,6 +186,7 @@ package limit
 //@   maintains[C04,C06,C07,C08,C15] l
 //@   ensures[C06] drop_never_raises: didDrop ==> l.estimatedLimit <= old(l.estimatedLimit)
 //@   ensures[C07] gate: !didDrop && float64(inFlight) * 2.0 < old(l.estimatedLimit) ==> l.estimatedLimit == old(l.estimatedLimit)
+//@   ensures[C06] drop_progress: didDrop && old(l.estimatedLimit) >= 2.0 && old(l.probeCount) + 1 < int(old(l.probeJitter) * float64(l.probeMultipler) * old(l.estimatedLimit)) ==> l.estimatedLimit <= old(l.estimatedLimit) - l.smoothing
 //@   ensures[C08] update_delegated: old(l.probeCount) + 1 < int(old(l.probeJitter) * float64(l.probeMultipler) * old(l.estimatedLimit)) && old(vegasBase(l)) != 0.0 && float64(rtt) >= old(vegasBase(l)) ==> ncalls("(*limit.VegasLimit).updateEstimatedLimit") == 1 && callrecv("(*limit.VegasLimit).updateEstimatedLimit", 0) == l && callarg("(*limit.VegasLimit).updateEstimatedLimit", 0, 1) == rtt && callarg("(*limit.VegasLimit).updateEstimatedLimit", 0, 2) == inFlight && callarg("(*limit.VegasLimit).updateEstimatedLimit", 0, 3) == didDrop
 //@   ensures[C15] baseline_bound: vegasBase(l) == 0.0 || vegasBase(l) <= float64(rtt)
 //@   ensures[C15] baseline_observed: vegasBase(l) == float64(rtt) || vegasBase(l) == old(vegasBase(l))
